@@ -5,8 +5,15 @@
 //@include prelude/ax.rs
 //@include prelude/spec.rs
 //@include prelude/ctx.rs
+//@include prelude/ev.rs
 //@include prelude/env_context.rs
-broadcast use {vstd::std_specs::hash::group_hash_axioms, ax::axiom_string_ext, ax::axiom_string_into_string, ax::axiom_refstring_into_string, ax::axiom_value_into_value};
+broadcast use {vstd::std_specs::hash::group_hash_axioms, ax::axiom_string_ext, ax::axiom_string_into_string, ax::axiom_refstring_into_string, ax::axiom_str_into_string, ax::axiom_value_into_value};
+// `==` on values (a change may compare values here): Value::eq under its contract (verified in group ops)
+impl PartialEqSpecImpl for Value {
+    open spec fn obeys_eq_spec() -> bool { true }
+    open spec fn eq_spec(&self, other: &Value) -> bool { veq(vview(*self), vview(*other)) }
+}
+//@assume objects.eq
 //@verify context.add_variable
 //@verify context.add_variable_from_value
 //@verify context.get_variable
